@@ -21,7 +21,7 @@ REAL = ["lian.common_structs.PathManager", "PathTrie", "TrieNode", "CallPath", "
 STUBS = []
 ASSUMPTIONS = ["the empty path is not generated (the property does not say whether () is a path)",
                "call-site validity = no negative caller/stmt/callee id (CallPath.has_any_negative)"]
-PROBES = ["invivo_adds", "invivo_prefix_evictions", "invivo_prefix_rejections", "prefix_eviction", "reject_prefix", "reject_dup", "reject_negative", "reject_badtype",
+PROBES = ["invivo_persisted_readbacks_checked", "invivo_history_run_ok", "invivo_history_ws_symlink_sub", "invivo_p3_analyses", "invivo_second_analysis_same_process", "invivo_persisted_sets_checked", "invivo_adds", "invivo_prefix_evictions", "invivo_prefix_rejections", "prefix_eviction", "reject_prefix", "reject_dup", "reject_negative", "reject_badtype",
           "add_after_remove_same", "add_after_remove_prefix", "add_after_evict_then_remove",
           "remove_hit", "remove_miss", "branching", "numpy_ids", "persist_restore"]
 # the same check again, smaller, in interpreters started with assertions stripped (python -O / PYTHONOPTIMIZE=1)
@@ -103,7 +103,7 @@ def _t(p):
 
 # ----------------------------------------------------------------------------- generator
 
-P_INVIVO = {"quick": 0.0009, "thorough": 0.001}
+P_INVIVO = {"quick": 0.0012, "thorough": 0.0012}
 
 
 def gen_knobs(rng, tier):
@@ -154,7 +154,25 @@ def _biased_path(rng, k, m):
 def generate(rng, k):
     if k["population"] == "invivo":
         from sim import invivo
-        return invivo.gen_invivo_ops(rng)
+        second = rng.random() < 0.5
+        ops = invivo.gen_invivo_ops(rng, p_history=0.0 if second else 0.7)
+        for op in ops:
+            h = op.get("history") if op["op"] == "run" else None
+            if h and rng.random() < 0.6:
+                # the call-path directory of the workspace is a link to another disk, and the project has lost its calls
+                h["ws"] = "symlink_sub"
+                h["linked_subdirs"] = sorted(set(h.get("linked_subdirs", [])) | {"semantic_p3"})
+                for f_ in ops:
+                    if f_["op"] == "file" and rng.random() < 0.85:
+                        f_["content"] = rng.choice(["x = 1\n", "VALUE = 2\n"])
+        if second:
+            # two analyses in one interpreter: each has its own store
+            for op in ops:
+                if op["op"] == "run":
+                    op["second_analysis"] = True
+                    op["fault"] = None
+                    op["history"] = None
+        return ops
     m = Model()
     ops = []
     kinds = ["add"] * k["w_add"] + ["remove"] * k["w_remove"] + ["exists"] * k["w_exists"] + ["persist"] * k.get("w_persist", 0)
@@ -230,11 +248,22 @@ def execute_invivo(trace):
         probes["invivo_prefix_evictions"] = st["c19_rel_extension_of_stored"]
     if st.get("c19_rel_proper_prefix_of_stored"):
         probes["invivo_prefix_rejections"] = st["c19_rel_proper_prefix_of_stored"]
+    if st.get("c19_analyses_started"):
+        probes["invivo_p3_analyses"] = st["c19_analyses_started"]
+        if st["c19_analyses_started"] > 1:
+            probes["invivo_second_analysis_same_process"] = 1
+    if st.get("c19_readbacks_checked"):
+        probes["invivo_persisted_readbacks_checked"] = st["c19_readbacks_checked"]
+    for k_, v_ in st.items():
+        if k_.startswith("history_"):
+            probes["invivo_" + k_] = v_
+    if st.get("c19_persisted_sets_checked"):
+        probes["invivo_persisted_sets_checked"] = st["c19_persisted_sets_checked"]
     vs = rep.get("c19", [])
     violation = None
     if vs:
         violation = {"step": len(trace["ops"]) - 1, "cls": "invivo:" + vs[0]["cls"], "detail": dict(vs[0], count=len(vs), run_status=out.get("status"))}
-    log = [out.get("status"), out.get("detail", ""), st.get("c19_adds"), st.get("c19_removes"), [v["cls"] for v in vs]]
+    log = [out.get("status"), out.get("status2"), out.get("detail", ""), st.get("c19_adds"), st.get("c19_removes"), [v["cls"] for v in vs]]
     return {"violation": violation, "probes": probes, "states": set(), "trans": set(), "steps": st.get("c19_adds", 0) + st.get("c19_removes", 0),
             "log": digest_hex(log), "extra": {"invivo_monitor_errors": st.get("c19_monitor_errors", 0)}}
 
